@@ -19,6 +19,10 @@ def _pip(cfg, workers=4, thorough_only=False):
     return d
 
 
+def _hash(lo, hi):
+    return {"kind": "mc", "name": "MC_Hash", "workers": 4, "env": {"MATH_LO": str(lo), "MATH_HI": str(hi)}}
+
+
 def _gen(name):
     return {"kind": "gen", "name": name}
 
@@ -35,9 +39,9 @@ PROPS = {
     "C03": {"level": MC, "steps": [_math(57, 59, 3), _wl("c03")]},
     "C04": {"level": MC, "steps": [{"kind": "mc", "name": "MC_Decode", "workers": 2}, _gen("Gen_Enc"), _wl("c04")]},
     "C05": {"level": MC, "steps": [_gen("Gen_Enc"), _wl("c05")]},
-    "C06": {"level": MC, "steps": [_iso(9, 16), _wl("c06")]},
+    "C06": {"level": MC, "steps": [_iso(9, 16), _hash(1, 9), _wl("c06")]},
     "C07": {"level": MC, "steps": [_math(55, 56, 2), _gen("Gen_Enc"), _gen("Gen_Map"), _wl("c07")]},
-    "C08": {"level": MC, "steps": [{"kind": "selfmath", "name": "SelfMath"}, _wl("c08")]},
+    "C08": {"level": MC, "steps": [{"kind": "selfmath", "name": "SelfMath"}, _gen("Gen_C08"), _wl("c08")]},
     "C09": {"level": MC, "steps": [_math(1, 32, 16), _wl("c09")]},
     "C10": {"level": MC, "steps": [
         _pip("w4c1"), _pip("w4c2"), _pip("w4c3"), _pip("w4c4"), _pip("w3n3c2"), _pip("w3n3c3"),
@@ -47,12 +51,15 @@ PROPS = {
         _wl("c10")]},
     "C11": {"level": MC, "steps": [_math(59, 59, 1), {"kind": "mc", "name": "MC_PairingProduct", "workers": 4}, _wl("c11")]},
     "C12": {"level": MC, "steps": [_math(59, 60, 2), _wl("c12")]},
-    "C13": {"level": MC, "steps": [_wl("c13")]},
+    "C13": {"level": MC, "steps": [_hash(1, 6), _wl("c13")]},
     "C14": {"level": MC, "steps": [_iso(9, 16), _gen("Gen_Map"), _gen("Gen_MapSub"), _wl("c14")]},
     "C15": {"level": MC, "steps": [_iso(9, 16), _gen("Gen_Map"), _gen("Gen_MapDiag"), _wl("c15")]},
     "C16": {"level": MC, "steps": [_iso(), _gen("Gen_Iso"), _wl("c16")]},
     "C17": {"level": MC, "steps": [_math(55, 56, 2), _gen("Gen_Enc"), _wl("c17")]},
-    "C18": {"level": MC, "steps": [_math(1, 8, 8), _wl("c18")]},
+    "C18": {"level": MC, "steps": [_math(1, 8, 8),
+                                   {"kind": "mc", "name": "MC_Sqrt", "workers": 4,
+                                    "cfg": {"quick": "MC_Sqrt.cfg", "thorough": "MC_Sqrt_thorough.cfg"}},
+                                   _gen("Gen_C18"), _wl("c18")]},
     "C19": {"level": MC, "steps": [{"kind": "mc", "name": "MC_Stream", "workers": 4}, _wl("c19")]},
     "C20": {"level": "exploration", "steps": [{"kind": "mc", "name": "MC_Concurrent", "workers": 4},
                                               {"kind": "conc", "name": "conc"}]},
@@ -72,12 +79,12 @@ TEXT = {
             "level": "For every recorded byte string TLC evaluates the ordered-stage decoder of the spec and requires the same verdict, the same error category and the same point from both decoders; accepted strings must re-encode to themselves."},
     "C05": {"technique": "TLA+ Encode/Decode functions on byte strings + TLC trace validation",
             "level": "Bytes of both encodings are compared byte for byte with the spec's ZCash encoding, lengths fixed, decode(encode(P)) = P, and every accepted string re-encodes to itself (C04 traces)."},
-    "C06": {"technique": "RFC 9380 pipeline in TLA+ over an uninterpreted hash graph recorded by a traced hash wrapper; TLC trace validation",
-            "level": "TLC recomputes expand_message -> hash_to_field -> SSWU -> isogeny -> add -> clear_cofactor from the recorded hash graph and requires the library's point to represent the result, which must lie in the subgroup."},
+    "C06": {"technique": "RFC 9380 pipeline in TLA+ (SHA-256 itself in TLA+, anchored by TLC to the published RFC 9380 J.9.1/J.10.1 points; other hashes as a recorded graph) + TLC trace validation",
+            "level": "TLC recomputes expand_message -> hash_to_field -> SSWU -> isogeny -> add -> clear_cofactor from the recorded hash graph (for SHA-256 every graph entry is recomputed with the TLA+ SHA-256) and requires the library's point to represent the result, which must lie in the subgroup; messages up to 2^17 bytes."},
     "C07": {"technique": "TLA+ definition of subgroup membership ([r]P = O on the curve) evaluated by TLC on every recorded producer output and predicate call",
             "level": "Predicate results are compared with the definition on identity, subgroup, full-order, order-3, off-curve inputs; every point returned by the safe producers is checked to be on the curve and annihilated by r."},
-    "C08": {"technique": "TLA+ integers-mod-p specification (BigNat) + TLC trace validation of boundary catalogue x catalogue and random operands",
-            "level": "Every recorded field / representation operation is compared by TLC with integer arithmetic modulo q, r resp. 2^384, 2^256."},
+    "C08": {"technique": "TLA+ integers-mod-p specification (BigNat) + TLC-generated operands with sparse stored (Montgomery) words + TLC trace validation of boundary catalogue x catalogue and random operands",
+            "level": "Every recorded field / representation operation is compared by TLC with integer arithmetic modulo q, r resp. 2^384, 2^256; operands by value shape (catalogue) and by stored-form shape (generated from the spec)."},
     "C09": {"technique": "TLA+ quotient-ring tower with schoolbook products, Frobenius by definition (x^(q^k)) + TLC trace validation",
             "level": "Every recorded tower operation equals the schoolbook quotient-ring result; Frobenius for k = 0..13, 24, 25, 35, 36, 2^32+5, usize::MAX equals the spec's Frobenius (itself checked against x^(q^k)); sparse products equal dense products."},
     "C10": {"technique": "TLA+ sum-of-[k]P oracle; label homomorphism sum [k_i][a_i]B = [sum a_i k_i]B for large inputs; TLC trace validation",
@@ -86,7 +93,7 @@ TEXT = {
             "level": "All lists up to length 3 over a pool with identities and cancelling combinations, longer random lists, reuse of prepared elements, and arbitrary-point products are validated."},
     "C12": {"technique": "TLA+ final exponentiation as plain power 3(q^12-1)/r evaluated by TLC + multiplicativity/order relations",
             "level": "Direct TLC evaluation on units incl. w, sparse and random elements; zero must fail; subfield elements must map to one; FE(fg) = FE(f)FE(g) and FE(f)^r = 1 on random pairs."},
-    "C13": {"technique": "RFC 9380 expand_message_xmd/xof and hash_to_field in TLA+ over an uninterpreted hash graph; TLC trace validation",
+    "C13": {"technique": "RFC 9380 expand_message_xmd/xof and hash_to_field in TLA+ (SHA-256/224 in TLA+ anchored to FIPS 180-4 digests and RFC 9380 K.1 vectors by TLC; other hashes as a recorded graph); TLC trace validation",
             "level": "Every hash input the library produced and every output byte is validated for lengths across block boundaries, the 255-block limit +-1 (abort), all four expanders, three fields and chosen reduction blocks."},
     "C14": {"technique": "TLA+ RFC composition clear_cofactor(iso(sswu(u0)) + iso(sswu(u1))) evaluated by TLC on recorded calls",
             "level": "map_to_curve / map2_to_curve results are validated for random, zero, special, u1 = u0 and u1 = -u0 inputs; the result must lie in the subgroup and the call must not panic."},
@@ -96,8 +103,8 @@ TEXT = {
             "level": "Images of SWU points, negatives, rescaled representatives and identities are validated; iso(P +' Q) = iso(P) + iso(Q) with +' computed by the spec."},
     "C17": {"technique": "TLA+ [h_eff]P by double-and-add evaluated by TLC on full-order curve points",
             "level": "clear_h output must represent [h_eff]P and lie in the subgroup for full-order, rescaled, subgroup, order-3 and identity inputs."},
-    "C18": {"technique": "TLA+ Euler criterion / relational square root / sgn0 / ordering + TLC trace validation",
-            "level": "sqrt is validated relationally (b^2 = a iff Euler symbol != -1), legendre against Euler (norm for Fq2), sgn0/ordering/negate_if against the definitions, incl. y / -y pairs."},
+    "C18": {"technique": "TLA+ Euler criterion / relational square root / sgn0 / ordering; the Fq2 square-root routine as a TLA+ state machine model-checked by TLC from every element of small-field analogues; TLC-generated inputs per value of the routine's intermediate alpha; TLC trace validation",
+            "level": "sqrt is validated relationally (b^2 = a iff Euler symbol != -1), legendre against Euler (norm for Fq2), sgn0/ordering/negate_if against the definitions, incl. y / -y pairs; SqrtAlg exhaustively for p = 3..31 (thorough ..67); inputs with alpha = a^((q-1)/2) in {+-1, +-u, +-1+-su, +-s+-u, +-t(1+-u)} constructed by the spec."},
     "C19": {"technique": "TLA+ Stream machine (write buffer, read buffer, cursor) + TLC trace validation of histories",
             "level": "Mixed-type round trips on one stream, truncation at prefix lengths, flag mismatch, non-reduced values at every coefficient position and rejected encodings are validated step by step incl. bytes written and cursor position."},
     "C20": {"technique": "TLA+ memo specification (operations are pure functions) validating merged multi-thread traces with per-thread sequence numbers",
